@@ -294,7 +294,7 @@ class Projector:
                 "name": sec.name, "size": len(data), "bytes": list(data),
                 "blocks": oblocks,
                 "iann": iann, "sxout": sx_out,
-                "nbi": len(bis),
+                "nbi": len(bis), "noaddr": sum(1 for bi in bis if bi.address is None),
             })
 
         # proxies
